@@ -170,6 +170,19 @@ class Engine:
         except (OSError, IndexError):
             return None
 
+    def only_input_thread_reading(self, samples=4, gap=0.3):
+        """True iff at every one of `samples` looks the process consists of exactly one thread (tid == pid, the
+        command reader) and that thread is asleep in read(2): no search thread exists any more."""
+        for i in range(samples):
+            if not self.alive():
+                return False
+            ts = self.thread_states()
+            if len(ts) != 1 or ts[0][0] != str(self.pid) or ts[0][1] != "S" or ts[0][2] != "0":
+                return False
+            if i + 1 < samples:
+                time.sleep(gap)
+        return True
+
     def input_thread_blocked(self, cpu_at_send_ns, cpu_budget_s=8.0, wall_cap_s=90.0):
         """Load-independent 'stuck' rule: the process went on to consume `cpu_budget_s` seconds of its OWN
         CPU time after the command was sent (so it was not starved), and at every sample in between its
@@ -233,8 +246,8 @@ class Engine:
 # ---------------------------------------------------------------------------------------
 # oracle services
 
-def oracle(harness, what, args):
-    p = subprocess.run([harness, "oracle", what] + [str(a) for a in args], capture_output=True, text=True, timeout=600)
+def oracle(harness, what, args, timeout=600):
+    p = subprocess.run([harness, "oracle", what] + [str(a) for a in args], capture_output=True, text=True, timeout=timeout)
     if p.returncode != 0:
         raise RuntimeError(f"oracle {what} failed: {p.stderr[-500:]}")
     return p.stdout.splitlines()
@@ -249,19 +262,46 @@ def oracle_positions(harness, n, seed):
     return res
 
 
-def oracle_heavy(harness, n, seed, min_polls=300):
+def oracle_heavy(harness, n, seed, min_polls=300, timeout=600):
     """positions whose depth-1 search alone takes >= min_polls x 10 000 nodes (selected by measuring)"""
     res = []
-    for line in oracle(harness, "heavy", ["--n", n, "--seed", seed, "--min-polls", min_polls]):
+    for line in oracle(harness, "heavy", ["--n", n, "--seed", seed, "--min-polls", min_polls], timeout=timeout):
         f = line.split("\t")
         if f[0] == "pos":
             res.append({"root": f[1], "moves": f[2], "fen": f[3], "legal": f[4].split()})
     return res
 
 
-def oracle_games(harness, n, seed, max_plies):
+# Roots whose first iteration alone is millions of capture-search nodes, selected once by measurement on the tree
+# as it was when the checks were built (many mutually attacking queens). They do not depend on what the tree under
+# test reports about itself, unlike `oracle_heavy`, which measures with the tree's own poll counter.
+STATIC_HEAVY = [
+    "6nk/6rb/q1q1q3/1Q1Q1Q1Q/q1q1q1q1/1Q1Q1Q2/BR6/KN6 w - - 0 1",
+    "1q5Q/4rnpq/5qQq/K3R1Rb/5QQq/2nrQ2q/2k2B2/5Q2 w - - 0 17",
+    "k7/8/1R2r1pq/4QQQ1/3qqQQq/1K2Q1qQ/n4Qq1/8 b - - 0 85",
+    "4k3/8/5Qp1/K2bBq1Q/1Q1qqRqq/4q1qr/5QQN/1Q2r3 b - - 0 5",
+    "8/4p3/2Kb1QQ1/3B2q1/3qQq1q/3qqQPq/4qQBQ/k7 b - - 0 79",
+    "8/Q1QbQqqN/2n3qk/3QqqR1/2n1Q3/2Q1rqQq/8/KQ6 b - - 0 53",
+    "6k1/qBQb4/RqB5/qQQr4/qQqQ4/qQ1Q4/6K1/2Q5 w - - 0 89",
+    "8/4k3/8/3qq1p1/1K1QQqQQ/4b1qQ/3N1q1r/2nqQrQN w - - 0 6",
+]
+
+
+def static_heavy(harness):
     res = []
-    for line in oracle(harness, "games", ["--n", n, "--seed", seed, "--max-plies", max_plies]):
+    for f in STATIC_HEAVY:
+        legal = []
+        for line in oracle(harness, "legal", ["--fen", f]):
+            if line.startswith("moves "):
+                legal = line.split()[1:]
+        if legal:
+            res.append({"root": f, "moves": "", "fen": f, "legal": legal})
+    return res
+
+
+def oracle_games(harness, n, seed, max_plies, long=0):
+    res = []
+    for line in oracle(harness, "games", ["--n", n, "--seed", seed, "--max-plies", max_plies, "--long", long]):
         f = line.split("\t")
         if f[0] == "game":
             res.append({"root": f[1], "moves": f[2], "fens": [f[3], f[4], f[5]], "replies": f[6].split(),
@@ -446,6 +486,26 @@ def run_history(binary, steps, delays, start_legal, ready_timeout=8.0, trace=Tru
             return True
         return False
 
+    def lost_go(idx):
+        """A go that can never be answered, decided without a clock: the engine answers isready AFTER the go (so the
+        go was consumed, commands being handled in order), no bestmove line has arrived for it, and the process
+        consists of its command reader alone, asleep in read(2) - there is no search thread left to print one."""
+        n0 = len(count_lines("readyok"))
+        if not e.send("isready"):
+            return False
+        t_end = now() + 20
+        while now() < t_end and len(count_lines("readyok")) <= n0 and e.alive():
+            time.sleep(0.05)
+        if len(count_lines("readyok")) <= n0 or not e.only_input_thread_reading():
+            return False
+        time.sleep(1.0)  # let our own pipe reader catch up with anything the vanished thread printed
+        if len(count_lines("bestmove")) != len(idx) or not e.only_input_thread_reading(2):
+            return False
+        fail("c05.go-never-answered",
+             "a go was consumed (a later isready was answered) but no bestmove was printed and no search thread exists "
+             "any more: the process is its command reader alone, asleep in read(2)", {"proc": e.thread_states()})
+        return True
+
     try:
         for step_no, st in enumerate(steps):
             if res["verdict"] != "held":
@@ -461,6 +521,8 @@ def run_history(binary, steps, delays, start_legal, ready_timeout=8.0, trace=Tru
                 if got is None:
                     if unanswered("no bestmove after go (and stop, if the search was infinite)", "c05.no-bestmove.deadlock",
                                   last_cpu.get("stop") if last_cpu.get("stop_pending") else None):
+                        break
+                    if lost_go(idx):
                         break
                     got = e.wait_line(lambda x: x.startswith("bestmove"), 0 if not idx else idx[-1] + 1, 50.0)
                     if got is None:
@@ -680,7 +742,9 @@ def c05_stage(out, tier, seed):
     out.rules.append("conforming UCI command histories (isready/stop any time; go/ucinewgame/position/setoption only while "
                      "no bestmove is outstanding) with randomised inter-command gaps and H3 delay configurations, on the "
                      "real binary; each isready must be answered, each go by exactly one legal bestmove, quit must end the "
-                     "process; a missing answer is a violation only with the /proc deadlock signature; distinct = distinct "
+                     "process; a missing answer is a violation only with a clock-free signature from /proc (all threads in futex with "
+                     "CPU frozen; input thread asleep in futex while the process burns its own CPU; or, for a go, a later isready "
+                     "answered while no search thread exists and no bestmove was printed); distinct = distinct "
                      "(command list, delay configuration, binary)")
     out.stage_info.append({"stage": "uci-histories", "evaluations": stats["histories"], "commands": stats["commands"]})
 
